@@ -433,7 +433,7 @@ func (k *c12run) checkForm(f form, vals []string) {
 		if _, err, pn := safeParse(expr); err != nil || pn != nil {
 			level = "lexer"
 		}
-		class := "other|" + f.name
+		class := "other"
 		if rv := repairVals(vals); rv != nil {
 			e2, acc2, _ := f.build(rv)
 			ctx := k.ctx
@@ -466,7 +466,7 @@ func (k *c12run) checkForm(f form, vals []string) {
 	} else if !directOK {
 		return // the scanner did its part; already reported at the lexer / evaluation level
 	}
-	class := "other|" + f.name
+	class := "other"
 	if rv := repairVals(vals); rv != nil {
 		e2, acc2, _ := f.build(rv)
 		ctx := k.ctx
@@ -610,7 +610,7 @@ func inBodyClass(text string, tops []string) (in bool, doubles, lones int) {
 }
 
 var atPieces = []string{"@@", "@@", "@@", "@ ", "@", "@.", "@. ", "@1", "@_", "@é", "@contactx", "@nyaruka.com", "@Contact2", "@x.contact", "@foo_bar", "@_foo", "@fo", "@FOOD", "@résultats",
-	"@@contact", "@@(1 + 2)", "@@foo.bar", "@@@@", "@@@ ", "bob@nyaruka.com", "a@b.c@d.e", "@-", "@\"", "@)", "@\\", "@\n", "@@@@@@", "@été1", "@x(", "@9foo", "@contact_", "@😀",
+	"@@contact", "@@(1 + 2)", "@@foo.bar", "@@@@", "@@@ ", "bob@nyaruka.com", "a@b.c@d.e", "@-", "@\"", "@)", "@\\", "@\n", "@@@@@@", "@été1", "@x(", "@9foo", "@contact_", "@😀", "@½", "@٣x", "@²",
 	// not in the class (filtered out by inBodyClass, counted)
 	"@contact", "@(1)", "@foo.x"}
 
